@@ -1,7 +1,11 @@
 package main
 
 import (
+	"io"
+
+	log "github.com/sirupsen/logrus"
 	"os"
+	"regexp"
 	"strings"
 
 	"github.com/zmap/zlint/v3/lint"
@@ -68,4 +72,102 @@ func VerifC15DoLint() {
 	}
 	zz.Assert(c15Has(log, "json.Marshal(env:results)") == 1, "the Results of the library's result set are what is encoded")
 	zz.Assert(writes == 2 && c15Index(log, "Write(env:json)") >= 0 && log[len(log)-1] == "Write(\"\\n\")", "standard output gets exactly the encoded results followed by a newline")
+}
+
+func c15Pick(pool []string) string {
+	i := zz.Int()
+	zz.Assume(i >= 0 && i < len(pool))
+	return pool[i]
+}
+
+// VerifC15SetLints: the selection flags are mapped onto the library's
+// FilterOptions, unknown selectors fail closed, and whatever registry is
+// selected carries the configuration that was loaded for this run.
+func VerifC15SetLints() {
+	nameFilter = c15Pick([]string{"", "^e_crl_"})
+	includeNames = c15Pick([]string{"", "e_basic_constraints_not_critical, w_rsa_mod_factors_smaller_than_752", "e_no_such_lint"})
+	excludeNames = c15Pick([]string{"", " e_basic_constraints_not_critical"})
+	includeSources = c15Pick([]string{"", "RFC5280,CABF_BR", "NoSuchSource"})
+	excludeSources = c15Pick([]string{"", "RFC5280"})
+	profile, config = "", ""
+	// whatever configuration an earlier step left on the global registry
+	before := lint.NewEmptyConfig()
+	lint.GlobalRegistry().SetConfiguration(before)
+	var reg lint.Registry
+	var err error
+	exited := false
+	if zz.Replaying() {
+		// native replay: log.Fatal must not end the test process
+		log.StandardLogger().ExitFunc = func(int) { panic("exit status 1") }
+		log.SetOutput(io.Discard)
+	}
+	func() {
+		defer func() {
+			if r := recover(); r != nil {
+				exited = true
+			}
+		}()
+		reg, err = setLints()
+	}()
+	badSource := includeSources == "NoSuchSource"
+	badName := includeNames == "e_no_such_lint"
+	conflict := nameFilter != "" && (includeNames != "" || excludeNames != "")
+	if exited {
+		zz.Cover("unknown source")
+		zz.Assert(badSource, "only an unknown source makes flag processing exit")
+		zz.Assert(zz.Replaying() || c15Has(zz.EnvLog(), "Fatal") == 1, "an unknown source ends in log.Fatal")
+		return
+	}
+	zz.Assert(!badSource, "an unknown source is not silently accepted")
+	if badName || conflict {
+		zz.Cover("rejected selection")
+		zz.Assert(err != nil, "an unknown lint name, or a name pattern combined with name lists, is rejected with an error")
+		return
+	}
+	zz.Assert(err == nil && reg != nil, "a valid selection yields a registry")
+	if err != nil || reg == nil {
+		return
+	}
+	loaded := lint.GlobalRegistry().GetConfiguration()
+	zz.Assert(loaded != before, "the configuration named by -config replaces the earlier one on the global registry")
+	zz.Assert(reg.GetConfiguration() == loaded, "the selected registry carries the configuration loaded for this run")
+	if nameFilter == "" && includeNames == "" && excludeNames == "" && includeSources == "" && excludeSources == "" {
+		zz.Cover("no selection")
+		zz.Assert(reg == lint.GlobalRegistry(), "without selection flags the global registry is used")
+		return
+	}
+	zz.Cover("selection")
+	// the same selection made through the library
+	opts := lint.FilterOptions{}
+	if nameFilter != "" {
+		opts.NameFilter = regexp.MustCompile(nameFilter)
+	}
+	if includeNames != "" {
+		opts.IncludeNames = []string{"e_basic_constraints_not_critical", "w_rsa_mod_factors_smaller_than_752"}
+	}
+	if excludeNames != "" {
+		opts.ExcludeNames = []string{"e_basic_constraints_not_critical"}
+	}
+	if includeSources != "" {
+		opts.IncludeSources = lint.SourceList{lint.RFC5280, lint.CABFBaselineRequirements}
+	}
+	if excludeSources != "" {
+		opts.ExcludeSources = lint.SourceList{lint.RFC5280}
+	}
+	want, werr := lint.GlobalRegistry().Filter(opts)
+	zz.Assert(werr == nil && want != nil, "the library accepts the same selection")
+	if werr != nil || want == nil {
+		return
+	}
+	got, exp := reg.Names(), want.Names()
+	zz.Assert(len(got) == len(exp), "the tool selects as many lints as the library does for the same selection")
+	if len(got) == len(exp) {
+		same := true
+		for i := range got {
+			if got[i] != exp[i] {
+				same = false
+			}
+		}
+		zz.Assert(same, "the tool selects exactly the lints the library selects for the same selection")
+	}
 }
